@@ -429,7 +429,7 @@ def c07(ctx):
     st, tr = model_check(ctx, ["XCryptMC_obj.cfg"] + ([] if quick else ["XCryptMC_obj2.cfg"]))
     cfgev = config_event(ctx)
     rng = ctx.rng
-    behs = behaviours(ctx, 40 if quick else 400)
+    behs = behaviours(ctx, 40 if quick else 400) + systematic_behaviours()
     events = ctx.run_xcv(concretize(ctx, behs, cfgev["E"]))
     cmds = ["reset", "obj 1 5 2", "hset 0 0 0", "hset 1 0 0"]
     nreq = 0
@@ -492,7 +492,7 @@ def c09(ctx):
     st, tr = model_check(ctx, ["XCryptMC_obj.cfg", "XCryptMC_heap.cfg"])
     cfgev = config_event(ctx)
     rng = ctx.rng
-    behs = behaviours(ctx, 30 if quick else 300)
+    behs = behaviours(ctx, 30 if quick else 300) + systematic_behaviours()
     events = ctx.run_xcv(concretize(ctx, behs, cfgev["E"], scan=True, phrase_len=None))
     v = [judge(ctx, events, "walk", cfgev)]
     allev = list(events)
@@ -808,7 +808,7 @@ def c04(ctx):
     for (p_, what, payload) in list(ctx.violations):
         if p_ == "C13" and what.startswith(("Fault", "Local")):
             ctx.violations.append(("C04", "gensalt under ASan/UBSan: " + what, payload))
-    behs = behaviours(ctx, 30 if quick else 200)
+    behs = behaviours(ctx, 30 if quick else 200) + systematic_behaviours()
     ev3 = ctx.run_xcv(concretize(ctx, behs, cfgev["E"]), flavour="asan", env={"XCV_NO_RLIMIT": "1"}, timeout=1500)
     v3 = judge(ctx, ev3, "asanwalk", config_event(ctx, "asan"))
     attribute(ctx)
